@@ -62,6 +62,30 @@ fn decorate(s: &mut Spec, rng: &mut Rng) {
     }
 }
 
+/// `.fallback(x).guard(..)` / `.fallback_with(..).parse(..)` where the check rejects the supplied
+/// value: the failure message quotes the item the parser looked at last, which must not depend on
+/// bookkeeping that only exists with the `autocomplete` feature
+fn strict_steps(s: &mut Spec, rng: &mut Rng) {
+    match s {
+        Spec::Wrap { w, id, inner } => {
+            strict_steps(inner, rng);
+            if matches!(w, W::Fallback | W::FallbackWithOk) && rng.chance(1, 2) {
+                let step = if rng.chance(2, 3) { W::Guard } else { W::ParseStep };
+                let nid = crate::build::STRICT_STEP_BASE + *id;
+                let old = std::mem::replace(s, Spec::Pure(0));
+                *s = Spec::wrap(step, nid, old);
+            }
+        }
+        Spec::Seq(xs) | Spec::Alt(xs) | Spec::Adj(xs) => {
+            for x in xs {
+                strict_steps(x, rng);
+            }
+        }
+        Spec::Cmd(c) => strict_steps(&mut c.opts.root, rng),
+        _ => {}
+    }
+}
+
 pub fn corpus_case(seed: u64, case: u64) -> (OptSpec, Vec<Vec<Vec<u8>>>) {
     let mut rng = Rng::for_case(seed, "C20", case, 0);
     let mut spec = {
@@ -75,6 +99,9 @@ pub fn corpus_case(seed: u64, case: u64) -> (OptSpec, Vec<Vec<Vec<u8>>>) {
         spec
     };
     decorate(&mut spec.root, &mut rng);
+    if rng.chance(1, 2) {
+        strict_steps(&mut spec.root, &mut rng);
+    }
     if rng.chance(1, 2) {
         spec.descr = Some(format!("{} D0", rng.pick(HELPS)));
     }
